@@ -9,7 +9,7 @@
                evaluation points in every quadrant, on the axes, at +-pi and beyond; run through the round-1 formula stream.
 * fixed `fit` cases: both signs of C10 x astigmatism angle in each quadrant x rotation in each quadrant x H < W, H > W, H = W.
 * `gradgrid` : `aberration_surface_grad(gpts, sampling, energy, rotation_angle, coefs)` (never executed before) on H != W grids
-               against 2*pi x the lateral-shift model; predicates: it is wavelength x the true gradient (float64 autograd of
+               against the pixel model `surfaceGradAt` (Model/AberrationGrid.lean); predicates: it is wavelength x the true gradient (float64 autograd of
                the real `aberration_surface` in scattering-angle coordinates) and agrees with `_return_lateral_shifts`.
 * `twin`     : the same coefficient dict handed to the same routine TWICE with the first result mutated / cleared in between
                (validators, standardize, two HyperparameterState, `copy()`, two ProbePixelated, two DirectPtychography built
@@ -220,12 +220,12 @@ def eval_gradgrid_case(ctx, drv, case):
     dx, dy = fn(gpts, sampling, case["energy"], rotation_angle=th, aberration_coefs=coefs)
     kx, ky = cp.spatial_frequencies(gpts, sampling)
     pts = [[f2b(float(a)), f2b(float(b))] for a, b in zip(kx.reshape(-1), ky.reshape(-1))]
-    m = drv.ask({"op": "shifts", "coefs": base.enc_dict(coefs), "lam": f2b(lam), "pts": pts, "theta": None if th is None else f2b(th)})
+    m = drv.ask({"op": "surface_grad", "coefs": base.enc_dict(coefs), "lam": f2b(lam), "pts": pts, "theta": None if th is None else f2b(th)})
     if "ok" not in m:
         raise RuntimeError(f"driver error {m}")
     two_pi = 2 * PI
-    mdx = [b2f(row[0]) * two_pi for row in m["ok"]]
-    mdy = [b2f(row[1]) * two_pi for row in m["ok"]]
+    mdx = [b2f(row[0]) for row in m["ok"]]
+    mdy = [b2f(row[1]) for row in m["ok"]]
     ctx.count()
     ctx.dist[f"gradgrid:{'H<W' if gpts[0] < gpts[1] else ('H>W' if gpts[0] > gpts[1] else 'H=W')}:theta={'None' if th is None else ('neg' if th < 0 else 'pos')}"] += 1
     ctx.mark(("gradgrid", gpts[0] < gpts[1], gpts[0] > gpts[1], None if th is None else round(th), tuple(sorted({order_of(s) for s in coefs}))))
